@@ -89,8 +89,66 @@ def run_filter(c, d, a, idx, inp, outp, tag, p=None):
     cli.filter_fasta(ns)
     return read_fasta(outp)
 
+def handle_passes(c):
+    """2-3 successive filtering passes with DIFFERENT criteria.
+    mode 'api': ONE pool object, pool = pool.filter(...) again and again (filter rewrites the records in place and
+                returns a pool sharing them); finally pool.write() and the written FASTA is read back.
+    mode 'cli': filterFasta on the FASTA written by the previous filterFasta run."""
+    global _n
+    _n += 1
+    import pickle
+    from Bio.Seq import Seq
+    from moPepGen.aa import VariantPeptidePool
+    d, g, a, p, idx = world_dir(c['world'])
+    cd = os.path.join(d, 'm%d' % _n)
+    os.makedirs(cd)
+    outs = []
+    try:
+        inp = os.path.join(cd, 'in.fasta')
+        write_fasta(inp, c['fasta'])
+        if c['mode'] == 'cli':
+            cur = inp
+            for k, opts in enumerate(c['passes']):
+                ck = dict(c); ck.update(opts)
+                outp = os.path.join(cd, 'out%d.fasta' % k)
+                try:
+                    outs.append(run_filter(ck, cd, a, idx, cur, outp, str(k), p))
+                except BaseException as e:  # noqa
+                    outs.append({'__exc__': type(e).__name__, 'msg': str(e)[:200]})
+                    break
+                cur = outp
+            return {'passes': outs}
+        with open(inp) as handle:
+            pool = VariantPeptidePool.load(handle)
+        coding = pickle.load(open(os.path.join(idx, 'coding_transcripts.pkl'), 'rb'))
+        for opts in c['passes']:
+            exprs = None
+            if opts.get('exprs') is not None:
+                exprs = {}
+                for tx, v in opts['exprs']:
+                    exprs[tx] = float(v)
+            m = opts.get('miscleavages')
+            rng_ = tuple(int(x) for x in m.split(':', 1)) if m else (None, None)
+            deny = {Seq(x) for x in opts['denylist']} if opts.get('denylist') is not None else None
+            try:
+                pool = pool.filter(exprs=exprs, cutoff=opts.get('cutoff'), coding_transcripts=coding,
+                                   keep_all_noncoding=opts.get('kan', False), keep_all_coding=opts.get('kac', False),
+                                   enzyme=opts.get('enzyme', 'trypsin'), miscleavage_range=rng_, denylist=deny,
+                                   keep_canonical=opts.get('keep_canonical', False))
+            except BaseException as e:  # noqa
+                outs.append({'__exc__': type(e).__name__, 'msg': str(e)[:200]})
+                return {'passes': outs}
+            outs.append([[x.description, str(x.seq)] for x in pool.peptides])
+        wp = os.path.join(cd, 'written.fasta')
+        pool.write(Path(wp))
+        return {'passes': outs, 'written': read_fasta(wp)}
+    finally:
+        shutil.rmtree(cd, ignore_errors=True)
+
 def handle(c):
     global _n
+    if c.get('kind') == 'passes':
+        return handle_passes(c)
     _n += 1
     d, g, a, p, idx = world_dir(c['world'])
     cd = os.path.join(d, 'c%d' % _n)
